@@ -199,7 +199,10 @@ Section SMapP.
   Lemma lb_del a k (s : list (K * V)) : lb a s -> lb a (sdel cmp k s).
   Proof.
     induction s as [|[k0 v0] r IH]; intro L; cbn [sdel]; [constructor|].
-    inversion L as [|? ? H1 H2]; subst. destruct (cmp k k0); auto. constructor; auto.
+    inversion L as [|? ? H1 H2]; subst. destruct (cmp k k0).
+    - exact H2.
+    - exact L.
+    - constructor; [exact H1|apply IH; exact H2].
   Qed.
   Lemma sorted_del k (s : list (K * V)) : sorted s -> sorted (sdel cmp k s).
   Proof.
